@@ -187,7 +187,7 @@ theorem arbStep_inv (s : ArbS) (op : AOp) (h : ArbInv s) :
         omega
       · intro ht'
         simp only [arbAdd] at ht'
-        exact absurd ht' ht
+        exact absurd (finPh_of_termPh ht') ht
   | set p =>
     simp only [arbStep]
     split
